@@ -76,7 +76,7 @@ func (c15) Gen(r *sim.Rng, tier string) *scn.Scn {
 		ops = append(ops, op)
 	}
 	// the erasing operation
-	fin := scn.Op{Op: []string{"final-unmarshal", "final-unmarshal", "final-unmarshal-eager", "final-reset", "final-generated-reset", "final-reflect-reset"}[r.Intn(6)], Obj: r.Intn(nobj), N: int64(r.Intn(3))}
+	fin := scn.Op{Op: []string{"final-unmarshal", "final-unmarshal", "final-unmarshal-eager", "final-unmarshal-wrapper", "final-reset", "final-generated-reset", "final-reflect-reset"}[r.Intn(7)], Obj: r.Intn(nobj), N: int64(r.Intn(3))}
 	ops = append(ops, fin)
 	s.Phases = []scn.Phase{{Clients: [][]scn.Op{ops}, Sched: scn.Sched{Kind: "tape"}}}
 	return s
@@ -212,10 +212,16 @@ func (c15) Run(s *scn.Scn, x *sim.Exec) {
 					gen.SetField(sim.NewRng(seed), M.ProtoReflect(), fd, gen.DefaultOpts(), 0)
 				}
 			}
-		case "final-unmarshal", "final-unmarshal-eager":
-			uo := proto.UnmarshalOptions{AllowPartial: true, NoLazyDecoding: op.Op == "final-unmarshal-eager"}
+		case "final-unmarshal", "final-unmarshal-eager", "final-unmarshal-wrapper":
+			uo := proto.UnmarshalOptions{AllowPartial: true, NoLazyDecoding: op.Op == "final-unmarshal-eager" || (op.Op == "final-unmarshal-wrapper" && op.N == 0)}
 			buf := append([]byte(nil), o.Wire...)
-			if err := uo.Unmarshal(buf, M); err != nil {
+			var target proto.Message = M
+			if op.Op == "final-unmarshal-wrapper" {
+				// the same message behind a proto.Message that has no Reset method of its own (only
+				// ProtoReflect): Unmarshal erases it through proto.Reset's reflection fallback
+				target = pmsg{M.ProtoReflect()}
+			}
+			if err := uo.Unmarshal(buf, target); err != nil {
 				return sim.OpResult{Bad: "final-unmarshal-rejected: Unmarshal of a valid input into a used message failed: " + err.Error()}
 			}
 			fresh := newMsg()
@@ -236,7 +242,19 @@ func (c15) Run(s *scn.Scn, x *sim.Exec) {
 			} else {
 				proto.Reset(M)
 			}
-			return c15Compare(M, newMsg(), owned, "Reset of a message with history")
+			if r := c15Compare(M, newMsg(), owned, "Reset of a message with history"); r.Bad != "" {
+				return r
+			}
+			// erased means erased: nothing of the earlier state may resurface when the reset message is
+			// used like a fresh one (a merging decode of the same bytes into both)
+			uo := proto.UnmarshalOptions{AllowPartial: true, Merge: true, NoLazyDecoding: op.N == 0}
+			fresh := newMsg()
+			e1 := uo.Unmarshal(append([]byte(nil), o.Wire...), M)
+			e2 := uo.Unmarshal(append([]byte(nil), o.Wire...), fresh)
+			if e1 != nil || e2 != nil {
+				return sim.OpResult{}
+			}
+			return c15Compare(M, fresh, nil, "decoding into a message after Reset, compared with decoding the same bytes into a fresh message")
 		case "reset":
 			proto.Reset(M)
 			poisoned = false
